@@ -134,5 +134,9 @@ fn main() {
         eprintln!("unknown property {}", id);
         std::process::exit(2);
     }
+    if matches!(args[1].as_str(), "check" | "replay") {
+        // the workers' stderr files of this process
+        let _ = std::fs::remove_dir_all(std::env::temp_dir().join(format!("rv-{}", std::process::id())));
+    }
     std::process::exit(code);
 }
